@@ -125,20 +125,39 @@ def saveload(md, d, exts):
     ch = top.add_chain()
     for i in range(4):
         top.add_atom("CA", md.element.carbon, top.add_residue("ALA", ch))
+    import inspect
+    OPTION_VALUES = {"force_overwrite": [False], "header": [False], "ter": [False], "bfactors": ["per-atom"], "precision": [5, 1],
+                     "mode": ["a"]}
     for ext in exts:
         row = {}
-        for cell in ("none", "triclinic", "rectilinear"):
-            for nf in (1, 3):
+        combos = [(cell, nf, None, None) for cell in ("none", "triclinic", "rectilinear") for nf in (1, 3)]
+        # every keyword argument the saver accepts (found by introspection), switched away from its default
+        probe = md.Trajectory(np.zeros((1, 4, 3), dtype=np.float32), top)
+        params = [p_ for p_ in list(inspect.signature(probe._savers()[ext]).parameters)[1:]]
+        for o in params:
+            if o not in OPTION_VALUES:
+                row["opt:%s=?/triclinic/1" % o] = {"unknown_option": o}
+                continue
+            for val in OPTION_VALUES[o]:
+                for cell in ("none", "triclinic", "rectilinear"):
+                    # (save_pdb(header=False) writes no MODEL records, so several frames read back as one: single frame)
+                    for nf in ((1,) if (o == "header" or ext in (".rst7", ".ncrst")) else (1, 3)):
+                        combos.append((cell, nf, o, val))
+        for cell, nf, o, val in combos:
+            if True:
                 rng = np.random.RandomState(5)
                 xyz = rng.rand(nf, 4, 3).astype(np.float32)
                 L = (np.array([[3.0, 4.0, 5.0]]) + 0.125 * np.arange(nf)[:, None]).astype(np.float32)
                 A = np.array([[80.0, 95.0, 110.0] if cell == "triclinic" else [90.0, 90.0, 90.0]] * nf, dtype=np.float32)
                 t = md.Trajectory(xyz.copy(), top, unitcell_lengths=L if cell != "none" else None,
                                   unitcell_angles=A if cell != "none" else None)
-                p = os.path.join(d, "%s_%d%s" % (cell, nf, ext))
-                key = "%s/%d" % (cell, nf)
+                p = os.path.join(d, "%s_%d_%s%s%s" % (cell, nf, o or "", str(val).replace("-", ""), ext))
+                key = ("opt:%s=%s/%s/%d" % (o, val, cell, nf)) if o else ("%s/%d" % (cell, nf))
+                kw = {}
+                if o:
+                    kw[o] = np.linspace(0.0, 9.0, 4) if val == "per-atom" else val
                 try:
-                    t.save(p)
+                    t.save(p, **kw)
                 except Exception as e:  # noqa: BLE001
                     row[key] = {"refused": type(e).__name__}
                     continue
